@@ -249,7 +249,8 @@ def size_limit_siblings(r, F):
         found = tables.find_cmp(fn, lambda f, op: op.place is not None and backslice(f, op, "prov").has_call(r"bits::align_up$"), tables.role_field("max_entry_size"), "comparison of the aligned length with max_entry_size")
         c, fl = found[0]
         tabs[name] = tables.table(fn, c, fl, accepts)
-    r.require(tabs["push"] == tabs["push_slice"] and tabs["push"][2] == "no" and tabs["push"][1] != "no", F.method(BUF, "push_slice"), "push_slice accepts exactly what push accepts",
+    norm = lambda t: tuple("no" if x == "no" else "accept" for x in t)   # a further test on the accepting edge (remaining space) is fine
+    r.require(norm(tabs["push"]) == norm(tabs["push_slice"]) and tabs["push"][2] == "no" and tabs["push"][1] != "no", F.method(BUF, "push_slice"), "push_slice accepts exactly what push accepts",
               "(aligned<max, =, >) -> accepted: push %s, push_slice %s" % (tabs["push"], tabs["push_slice"]),
               "Buffer::push and Buffer::push_slice disagree on the size limit: push %s vs push_slice %s — an entry of exactly the maximum size is written by an insert but silently dropped "
               "when its block is reclaimed and it is re-inserted (its index entry then points into a rewritten block)" % (tabs["push"], tabs["push_slice"]), ln=None)
